@@ -173,6 +173,12 @@ def delete {C} (cfg : Cfg) (t : T C) (target : Option Path) : T C Ã— Res C :=
     if n.kind == .dir && !(children t k).isEmpty then (t, .err .exists)
     else (erase t k, .unit)
 
+/-- a rename is refused when the destination is occupied by a node of the other kind, by a file, or by a
+    non-empty directory -/
+def renameBlocked {C} (t : T C) (dk : Path) (sn : Node C) : Option (Node C) â†’ Bool
+  | none => false
+  | some cn => cn.kind != sn.kind || cn.kind == .file || !(children t dk).isEmpty
+
 def rename {C} (cfg : Cfg) (t : T C) (target : Option Path) (dst : Path) : T C Ã— Res C :=
   match lookupT cfg t target with
   | none => (t, .err .notFound)
@@ -183,10 +189,7 @@ def rename {C} (cfg : Cfg) (t : T C) (target : Option Path) (dst : Path) : T C Ã
     match parentCheck t dk with
     | some e => (t, .err e)
     | none =>
-      let blocked : Bool := match conflict with
-        | none => false
-        | some cn => cn.kind != sn.kind || cn.kind == .file || !(children t dk).isEmpty
-      if blocked then (t, .err .exists)
+      if renameBlocked t dk sn conflict then (t, .err .exists)
       else
         let t1 := if conflict.isSome then erase t dk else t
         if sn.disp == dst then (t1, .path dst)
